@@ -62,17 +62,17 @@ CHECKS = {
    note="One known finding (received PATH_TRACE TLV blocking the queue for paths >= 58 identities) is classified by its own signature and reported as KNOWN-FINDING. The end-to-end part needs root and network namespaces; where they are unavailable it is skipped with a note in the evidence (the other parts still decide); cases in which the daemon is not (Slave, Master) before and after are inconclusive, never violations.",
    technique="model-based property testing against a reference queue + exhaustive size sweep + generated black-box histories against the real daemon process"),
  "C12": dict(level="exploration", design="DESIGN.md §4 C12",
-   text="Bounded-horizon progress under a faithful host timer model: a generated prefix history (timers fire only if armed, at their deadline; lost transmit timestamps; masters coming and going; P2P faults and recoveries; run-time slave-only switches) is continued with (a) total silence and (b) a steadily announcing better master, both driven by the daemon's loop (timers as armed, periodic BMCA, immediate transmit timestamps). (a): every non-faulty port is Master within 2*receiptTimeout+6 announce intervals and then emits Announce and Sync/Follow_Up at the configured rates (+-1 per 8 intervals); slave-only instances listen with a live receipt timer. (b): port 1 is slave of that master within the bound and its delay requests are never more than two delay intervals apart.",
+   text="Bounded-horizon progress under a faithful host timer model: a generated prefix history (timers fire only if armed, at their deadline; lost transmit timestamps; masters coming and going; P2P faults and recoveries; run-time slave-only switches) is continued with (a) total silence and (b) a steadily announcing better master, both driven by the daemon's loop (timers as armed, periodic BMCA, immediate transmit timestamps). (a): every non-faulty port is Master within 2*receiptTimeout+6 announce intervals and then emits Announce and Sync/Follow_Up at the configured rates (+-1 per 8 intervals); slave-only instances listen with a live receipt timer. (b): port 1 is slave of that master within the bound and its delay requests are never more than two delay intervals apart. Plus an end-to-end part against the real daemon binary (private network namespace, real time, explicit bounds): steady-state rates of Announce/Sync/Delay_Req, take-over after parent silence, return to slave and resumption of Delay_Req.",
    note="Liveness is checked as bounded-horizon safety with explicit bounds. One known finding (port recovered from Faulty without receipt timer) has its own signature and a deterministic reproducer.",
-   technique="stateful property-based testing with a discrete-event host model and bounded-progress oracle"),
+   technique="stateful property-based testing with a discrete-event host model and bounded-progress oracle + generated black-box scenarios against the real daemon process"),
  "C17": dict(level="exploration", design="DESIGN.md §4 C17",
-   text="Three generated-input mechanisms: (1) the history generators of six other checks re-run over a lock implementation that records any acquisition requested while the lock is held; (2) dedicated histories whose parent Announces carry a version number encoded redundantly in every data set field, with parent/current/time-properties snapshots taken at every outermost exclusive release (exactly the states another thread can observe) and required to be homogeneous, each by itself and across the three data sets (path trace on with parent paths up to 200 entries in a third of the cases); (3) schedule injection with real threads over an RwLock-based lock that parks set_clock_quality / set_slave_only after each of their lock releases while BMCA rounds run, with a serialisability oracle (final state must equal one of the two serial orders) and homogeneous observer snapshots.",
+   text="Three generated-input mechanisms: (1) the history generators of six other checks re-run over a lock implementation that records any acquisition requested while the lock is held; (2) dedicated histories whose parent Announces carry a version number encoded redundantly in every data set field, with parent/current/time-properties snapshots taken at every outermost exclusive release (exactly the states another thread can observe) and required to be homogeneous, each by itself and across the three data sets (path trace on with parent paths up to 200 entries in a third of the cases); (3) schedule injection with real threads over an RwLock-based lock that parks set_clock_quality / set_slave_only after each of their lock releases while BMCA rounds run, with a serialisability oracle (final state must equal one of the two serial orders) and homogeneous observer snapshots; (4) the real daemon (std RwLock, one task per port) in a private network namespace under generated concurrent load on both ports with BMCA and observers running, followed by liveness probes.",
    note="Interleavings are owned at lock-release granularity only (sound because all shared state is behind the lock); the OS scheduler is not otherwise controlled. BMCA cannot overlap port handlers by type state.",
-   technique="property-based testing with a lock-discipline monitor, release-point snapshot invariants and deterministic schedule injection with a serialisability oracle"),
+   technique="property-based testing with a lock-discipline monitor, release-point snapshot invariants, deterministic schedule injection with a serialisability oracle, and generated load scenarios against the real daemon process with a liveness oracle"),
  "C19": dict(level="exploration", design="DESIGN.md §4 C19",
-   text="Generated instance states reached in simulation plus directly generated observable-state JSON over the full field ranges, checked in three stages: (1) the ObservableInstanceState assembled as the daemon's run() does against the configuration, the Announce a master port emits (an independent view of the live data sets), the port's behaviour and the slave port's filter estimates; (2) byte-identical and field-equal serde_json round trip; (3) black box: the statime-metrics-exporter binary built from /repo receives the JSON on a Unix socket (a fifth of the scrapes preceded by a scrape the client aborts while the exporter is working on it) and every sample of its HTTP response is parsed by an independent HTTP + OpenMetrics text parser and compared with the value derived from the state under the meaning the family's own metadata states.",
+   text="Generated instance states reached in simulation plus directly generated observable-state JSON over the full field ranges, checked in three stages: (1) the ObservableInstanceState assembled as the daemon's run() does against the configuration, the Announce a master port emits (an independent view of the live data sets), the port's behaviour and the slave port's filter estimates; (2) byte-identical and field-equal serde_json round trip; (3) black box: the statime-metrics-exporter binary built from /repo receives the JSON on a Unix socket (a fifth of the scrapes preceded by a scrape the client aborts while the exporter is working on it) and every sample of its HTTP response is parsed by an independent HTTP + OpenMetrics text parser and compared with the value derived from the state under the meaning the family's own metadata states; (4) end to end: the real daemon in a private network namespace is told generated hierarchies by a synthetic parent and its observation socket - and the real exporter behind it - must show exactly them.",
    note="Stage 3 uses wall-clock socket time-outs (time-out = exit 2). uptime_seconds values are chosen exactly representable (serde_json's default float parser is not round-trip exact).",
-   technique="property-based testing: differential (state vs Announce), round-trip, and black-box differential against an independent exposition-format parser"),
+   technique="property-based testing: differential (state vs Announce), round-trip, black-box differential against an independent exposition-format parser, and generated black-box scenarios against the real daemon + exporter processes"),
  "C20": dict(level="fault_enumeration", design="DESIGN.md §4 C20",
    text="Fault enumeration against the real exporter subprocess: every sequence of length 1 and 2 over the alphabet of (client behaviour x observation-socket behaviour) pairs is executed exhaustively (reduced alphabet in quick, full in thorough), sequences of length 3-4 are sampled, and every disturbing client is repeated 14 (thorough also 40) times in a row; each is followed by a probe request that must receive a complete 200 response within a deadline, well-formed requests inside the sequence must get 200/500, and on a miss the process is classified as exited / spinning (CPU time from /proc) / hanging.",
    note="Only clients that go away are generated. Needs loopback TCP and Unix sockets.",
